@@ -135,7 +135,7 @@ def project_run(r, named):
             if l == hier[-1]:
                 al = row[col[f'{rl(l)}_alias']]
                 if named:
-                    m = re.fullmatch(rf'a{l}(\d+)', al)
+                    m = re.fullmatch(rf'a?{l}(\d+)', al)
                     alias = 2000 + int(m.group(1)) if m else -7
                 else:
                     try:
@@ -169,6 +169,15 @@ def project_run(r, named):
     for pid, evs in r.get('hook_genes', {}).items():
         pass
     mg = conf['marker_genes']
+    # a parent with a single child in the taxonomy of the run is never voted on: no markers are reported for it
+    tr = rec['tree_out']
+    plain = not scn['cfg'].get('flatten') and scn['cfg'].get('drop') is None      # the embedded tree is the tree of the run
+    for j_, lv_ in enumerate(tr['hier'][:-1] if plain else []):
+        for n_, ks_ in tr['kids'][j_]:
+            key = f'{nm.level(lv_)}/{nm.node(lv_, n_)}'
+            if len(ks_) == 1 and mg.get(key):
+                issues.append((1529, f'parent {[lv_, n_]} has a single child and is never voted on, but '
+                                     f'{len(mg[key])} markers are reported for it'))
     for e in r['trace']['events']:
         if e['op'] == 'node' and e['genes']:
             par = e['parent']
@@ -211,6 +220,34 @@ def run(ctx):
                 if i % 4 == 1:
                     s['cfg']['B'] = rng.choice([32, 16, 160, 7, 3])    # rounding ties at 4 decimals
                     s['cfg']['fnum'] = rng.randint(2, 6)
+                if i % 6 == 2:
+                    # flattened / level-dropped run over a taxonomy of small sibling groups with more runners-up asked for
+                    # than any parent has children, and votes spread by small gene subsets
+                    for _ in range(200):
+                        t = maptrace.random_tree(rng, 3, 7, 5)
+                        if len(t['hier']) >= 2 and max(len(ks) for row in t['kids'] for _, ks in row) <= 2:
+                            break
+                    else:
+                        t = None
+                    if t is not None:
+                        s = maptrace.gen_scenario(rng, tree=t, ncell=rng.randint(4, 9), G=6)
+                        s['cfg'].update(K=rng.randint(3, 5), B=rng.randint(8, 12), fnum=rng.randint(1, 3), minm=1)
+                        if rng.random() < 0.6:
+                            s['cfg'].update(flatten=True, drop=None)
+                        else:
+                            s['cfg'].update(flatten=False, drop=t['hier'][-2])
+                        s['qgenes'] = rng.sample(range(1, 7), 6)
+                        s['markers'] = {k: [1, 2, 3, 4, 5, 6] for k in s['markers']}
+                        s['Q'] = [[rng.randint(0, 4) for _ in range(6)] for _ in s['cells']]
+                if i % 3 == 1:
+                    # a list for every single-child parent too (sharing a gene with the query): such a parent is never
+                    # voted on, the output reports no markers for it
+                    usable = [g for g in s['qgenes'] if g <= s['G']]
+                    tj_ = s['tree']
+                    for j_, lv_ in enumerate(tj_['hier'][:-1]):
+                        for n_, ks_ in tj_['kids'][j_]:
+                            if len(ks_) == 1 and f'{lv_}/{n_}' not in s['markers']:
+                                s['markers'][f'{lv_}/{n_}'] = sorted(set(rng.sample(usable, rng.randint(1, len(usable)))))
                 scns.append(s)
             rs = campaign(ctx, scns, f'MapRun_Trace_c15_{named}', name_tables=named, keep=True,
                           schemes=['structural', 'quoted', 'reversed', 'shared'])
